@@ -8,6 +8,7 @@ struct fields are covered by the conversion model (Props/C11 `convert_has_target
 typed part of the `cont` stream.
 -/
 import Anko.Model.Cont
+import Anko.Proofs.Cont
 
 namespace Anko.C10
 open Anko.Cont
@@ -304,6 +305,23 @@ visible through every other slice over it, as in Go) and only the length grows. 
 theorem append_in_place (h : Heap) (s : Slice) (v : V) (nc : Nat) (hroom : s.len + 1 ≤ s.cap) :
     (h.append s [v] nc).2 = { s with len := s.len + 1 } ∧ (h.append s [v] nc).1 = h.writeElem s s.len v := by
   simp [Heap.append, hroom, List.range, List.range.loop]
+
+/-! ### the heap invariant, for every history -/
+
+/-- After ANY history of container statements (literal operands being scalars, as a program writes
+them) every slice header anywhere - in a variable, inside another slice, as a map key or value -
+still points into an existing backing array with room for its whole capacity, and every map
+reference is valid: no operation, failing or not, can leave a dangling or over-long view. -/
+theorem heap_stays_well_formed (ops : List Op) (hs : ∀ op ∈ ops, op.scalarLits = true) : WF (Heap.empty.run ops).1 :=
+  wf_run ops Heap.empty wf_empty hs
+
+/-- ... so on reachable heaps read-after-write needs no side condition beyond the index being in range -/
+theorem write_then_read_reachable (ops : List Op) (hs : ∀ op ∈ ops, op.scalarLits = true) (x : String) (s : Slice) (i : Nat) (v : V)
+    (hx : (Heap.empty.run ops).1.getVar x = some (.slice s)) (hi : i < s.len) :
+    ((Heap.empty.run ops).1.writeElem s i v).elem s i = v := by
+  have w := heap_stays_well_formed ops hs
+  obtain ⟨a, ha, h1, h2⟩ := (wf_getVar w hx : sliceOK _ s)
+  exact write_then_read _ s i v a ha (by omega)
 
 /-! ### Non-vacuity: a concrete history with aliasing, append-after-slice and failing statements -/
 def demo : List Op :=
